@@ -25,6 +25,7 @@ pub fn profile(name: &str) -> Option<GenFn> {
         "svcfaults" => genp::svcfaults,
         "droprace" => genp::droprace,
         "timeout0" => genp::timeout0,
+        "stoprace" => genp::stoprace,
         _ => return None,
     })
 }
